@@ -26,7 +26,9 @@ variable {α : Type} [Field α]
 theorem two_eq : (two : α) = 2 := by simp [two]
 theorem half_eq : (half : α) = 1 / 2 := by simp [half]
 
-/-- `trapz` as a plain list sum. -/
+/-- `trapz` as a plain list sum.  (All algebraic `trapz` theorems below are stated for every `n`; at `n = 0`,
+outside the property's quantifier, they hold through `x / 0 = 0` while the code returns `±inf`/NaN:
+`C07V.trapz_zero_panels`.) -/
 theorem trapz_def (f : α → α) (a b : α) (n : ℕ) :
     trapz f a b n = (b - a) / n *
       (((List.range' 1 (n - 1)).map fun k : ℕ => f (a + (k : α) * ((b - a) / n))).sum + (f b + f a) / 2) := by
@@ -296,8 +298,9 @@ end Romberg
 section Samples
 variable {α : Type} [Field α]
 
-/-- Textbook value: the sum of the panel areas `(yᵢ + yᵢ₋₁)/2 · (xᵢ − xᵢ₋₁)`, i.e. the exact
-integral of the piecewise-linear interpolant of the samples. -/
+/-- The sum of the panel areas `(yᵢ + yᵢ₋₁)/2 · (xᵢ − xᵢ₋₁)` (total: `0` on short or mismatched lists).
+That this is the integral of the piecewise-linear interpolant is a theorem in `Props/C07Review.lean`
+(`panel_integral`, `panelSum_eq_integrals`, `panelSum_eq_integral_pwl`). -/
 def panelSum : List α → List α → α
   | y0 :: y1 :: ys, x0 :: x1 :: xs => (y1 + y0) / 2 * (x1 - x0) + panelSum (y1 :: ys) (x1 :: xs)
   | _, _ => 0
